@@ -318,7 +318,7 @@ class Ctx:
         for i in range(0, len(exprs), shard):
             body = header + "\nDefinition cases : list bool := [\n" + ";\n".join(exprs[i:i + shard]) + "\n].\n"
             body += "Definition failing := (fix go (i:nat) (l:list bool) : list nat := match l with [] => [] | b :: r => if b then go (S i) r else i :: go (S i) r end) O cases.\n"
-            body += "Eval vm_compute in (length cases, failing).\n"
+            body += "Eval vm_compute in (List.length cases, failing).\n"
             shards.append(("%s_%s_%d" % (self.pid, name, i // shard), body))
         res = []
         outs = coqc_many(shards, timeout=timeout)
